@@ -708,6 +708,36 @@ pub fn run(sim: &Sim, _idx: u64) {
     });
     sim.ev(|| format!("config: service={} comp={:?}", ["sim.Raw", "simpb.Echo", "Bare"][svc], comp));
     match svc {
+        0 if sim.chance(1, 4) => {
+            // the same calls through interceptors on both sides (`with_interceptor` /
+            // `InterceptedService`): each adds metadata, nothing else may change
+            fn client_interceptor(mut r: Request<()>) -> Result<Request<()>, Status> {
+                r.metadata_mut().append("x-icpt", "c1".parse().unwrap());
+                r.metadata_mut().append_bin("x-icpt-bin", tonic::metadata::MetadataValue::from_bytes(&[0, 255, 7]));
+                Ok(r)
+            }
+            fn server_interceptor(mut r: Request<()>) -> Result<Request<()>, Status> {
+                r.metadata_mut().append("x-srv-icpt", "s1".parse().unwrap());
+                Ok(r)
+            }
+            sim.probe("calls-through-interceptors");
+            let server = configure!(crate::rawsvc::raw_server::RawServer::new(handler.clone()), comp, server);
+            let server = tonic::service::interceptor::InterceptedService::new(server, server_interceptor as fn(Request<()>) -> Result<Request<()>, Status>);
+            let lb = Loopback::new(sim, crate::loopback::BoxResp(server));
+            let tap = lb.tap.clone();
+            let mut client = configure!(crate::rawsvc::raw_client::RawClient::with_interceptor(lb, client_interceptor as fn(Request<()>) -> Result<Request<()>, Status>), comp, client);
+            if let Some(obs) = run_calls::<RawMsg, _>(sim, &mut client, &handler, &plans) {
+                finish::<RawMsg>(sim, "/sim.Raw/", &plans, &obs, &handler, &tap.lock().unwrap());
+                for p in &plans {
+                    if let Some(md) = handler.log(p.id).and_then(|l| l.md) {
+                        let ok = md.get("x-icpt").map(|v| v.as_bytes()) == Some(b"c1") && md.get_bin("x-icpt-bin").and_then(|v| v.to_bytes().ok()).as_deref() == Some(&[0u8, 255, 7][..]) && md.get("x-srv-icpt").map(|v| v.as_bytes()) == Some(b"s1");
+                        if !ok {
+                            v2(sim, "interceptor-metadata-lost", format!("call {}: the handler's request metadata lacks what the interceptors attached: x-icpt={:?} x-icpt-bin={:?} x-srv-icpt={:?}", p.id, md.get("x-icpt"), md.get_bin("x-icpt-bin"), md.get("x-srv-icpt")));
+                        }
+                    }
+                }
+            }
+        }
         0 => {
             let server = configure!(crate::rawsvc::raw_server::RawServer::new(handler.clone()), comp, server);
             let lb = Loopback::new(sim, server);
